@@ -158,21 +158,26 @@ func (w *WaterMark) setLastIndex(index uint64) {
 
 func (w *WaterMark) tryAdvance() {
 	for {
+		VerifYield("wm.adv.done")
 		doneUntil := w.DoneUntil()
+		VerifYield("wm.adv.last", doneUntil)
 		lastIndex := w.LastIndex()
 		if doneUntil >= lastIndex {
 			return
 		}
 		next := doneUntil + 1
+		VerifYield("wm.adv.win", next)
 		win := w.loadWindow()
 		if next < win.base || next >= win.base+uint64(len(win.slots)) {
 			w.ensureWindow(next)
 			continue
 		}
 		offset := next - win.base
+		VerifYield("wm.adv.slot", next, offset)
 		if win.slots[offset].Load() > 0 {
 			return
 		}
+		VerifYield("wm.adv.cas", next)
 		if atomic.CompareAndSwapUint64(&w.doneUntil, doneUntil, next) {
 			w.notifyWaiters(doneUntil, next)
 			continue
@@ -191,6 +196,7 @@ func (w *WaterMark) notifyWaitersLocked(_ uint64, until uint64) {
 }
 
 func (w *WaterMark) notifyWaiters(prev, until uint64) {
+	VerifYield("wm.notify.lock", until)
 	w.mu.Lock()
 	w.notifyWaitersLocked(prev, until)
 	w.mu.Unlock()
